@@ -4,10 +4,11 @@
    the class with several keyword sets (CPython).
      v_model : Model.resolve reproduces the offered list and the parser names, the model's C3 gives the
                observed MRO, and Spec.call reproduces every observed call outcome (both semantics tied)
-     v_class : KwargsGuard.klass_top (0 = hypotheses of the theorems hold)
+     v_class : KwargsGuard.klass_top (0 = hypotheses of the theorems hold); a finding class is kept only when
+               the faithful model reproduces the observation, otherwise 9 (not a listed finding)
      v_spec  : the property, decided from the OBSERVED offered list with Spec.call (exact_b), and no
                observed call with offered names only was refused a keyword *)
-From JV Require Import Lib.Base Model.Kwargs Model.KwargsGuard Spec.KwargsSpec.
+From JV Require Import Lib.Base Model.Kwargs Model.KwargsGuard Model.C13KwargsFx Spec.KwargsSpec.
 
 Record case := { c_prog : prog; c_cls : nat; c_mro : list nat; c_offered : list rparam;
                  c_parser : list str; c_trials : list (list str * outcome) }.
@@ -27,18 +28,72 @@ Definition rparam_eqb (a b : rparam) : bool :=
 
 Definition subset_str (a b : list str) : bool := forallb (fun x => mem_str x b) a.
 
+Definition model_agrees (c : case) : bool :=
+  let P := c_prog c in
+  match resolve FUEL P (c_cls c) with
+  | Ok r => list_eqb rparam_eqb r (c_offered c) && list_eqb str_eqb (names r) (c_parser c)
+  | Err _ => false
+  end
+  && match c3 FUEL P (c_cls c) with Some m => list_eqb Nat.eqb m (c_mro c) | None => false end
+  && forallb (fun t => outcome_eqb (fst (call FUEL P (c_cls c) (fst t))) (snd t)) (c_trials c).
+
+(* A finding class only explains an observation that the faithful model reproduces: outside the guard,
+   an implementation that does something ELSE than the modelled defect gets class 9, which is not a
+   listed finding (a spec failure there is reported as a violation, not absorbed by a known finding;
+   a repaired implementation has v_spec = true there and is fine). *)
 Definition judge1 (c : case) : verdict :=
   let P := c_prog c in
-  {| v_model :=
-       match resolve FUEL P (c_cls c) with
-       | Ok r => list_eqb rparam_eqb r (c_offered c) && list_eqb str_eqb (names r) (c_parser c)
-       | Err _ => false
-       end
-       && match c3 FUEL P (c_cls c) with Some m => list_eqb Nat.eqb m (c_mro c) | None => false end
-       && forallb (fun t => outcome_eqb (fst (call FUEL P (c_cls c) (fst t))) (snd t)) (c_trials c);
-     v_class := klass_top FUEL P (c_cls c);
+  let k := klass_top FUEL P (c_cls c) in
+  let ma := model_agrees c in
+  {| v_model := ma;
+     v_class := if N.eqb k 0 || ma then k else 9%N;
      v_spec := exact_b FUEL P (c_cls c) (c_offered c)
                && forallb (fun t => negb (subset_str (fst t) (names (c_offered c)))
                                     || negb (rejected (snd t))) (c_trials c) |}.
 
 Definition judge (cs : list case) := judge_all judge1 cs.
+
+(* ---- after some of fixes/C13-*.patch have been applied to the implementation --------------------
+   tie/props/c13.py sets JUDGE = "(judge_fx {| fx_mro := ..; fx_pop := ..; fx_meth := ..; fx_crash := .. |})"
+   from its FIXES_APPLIED table. The model is then the repaired resolver (Model/C13KwargsFx.v), the finding
+   classes are recomputed for it and a repaired class is no longer a listed finding: a recurrence is a
+   violation. Inside the guard of the theorems (klass_top = 0, stated for the unrepaired model) the repaired
+   model must in addition give the same answer as the unrepaired one, so that the theorems still speak
+   about what the implementation does. *)
+Definition res_params_eqb (a b : res (list rparam)) : bool :=
+  match a, b with
+  | Ok x, Ok y => list_eqb rparam_eqb x y
+  | _, _ => false
+  end.
+
+Definition model_agrees_fx (fx : fixes) (c : case) : bool :=
+  let P := c_prog c in
+  match resolve_fx fx FUEL P (c_cls c) with
+  | Ok r => list_eqb rparam_eqb r (c_offered c) && list_eqb str_eqb (names r) (c_parser c)
+  | Err _ => false
+  end
+  && match c3 FUEL P (c_cls c) with Some m => list_eqb Nat.eqb m (c_mro c) | None => false end
+  && forallb (fun t => outcome_eqb (fst (call FUEL P (c_cls c) (fst t))) (snd t)) (c_trials c).
+
+Definition judge1_fx (fx : fixes) (c : case) : verdict :=
+  let P := c_prog c in
+  let k0 := klass_top FUEL P (c_cls c) in
+  let k := klass_top_fx fx FUEL P (c_cls c) in
+  let ma := model_agrees_fx fx c in
+  {| v_model := ma
+                && (negb (N.eqb k0 0)
+                    || res_params_eqb (resolve FUEL P (c_cls c)) (resolve_fx fx FUEL P (c_cls c)));
+     v_class := if N.eqb k0 0 then 0%N
+                else if ma && listed_fx fx k then k else 9%N;
+     v_spec := exact_b FUEL P (c_cls c) (c_offered c)
+               && forallb (fun t => negb (subset_str (fst t) (names (c_offered c)))
+                                    || negb (rejected (snd t))) (c_trials c) |}.
+
+Definition judge_fx (fx : fixes) (cs : list case) := judge_all (judge1_fx fx) cs.
+
+(* diagnostics (not used by bin/check): the pure tie — every case on which the model does not reproduce
+   the observation, whatever its class *)
+Definition judge_tie (cs : list case) :=
+  judge_all (fun c => {| v_model := model_agrees c; v_class := 0%N; v_spec := true |}) cs.
+Definition judge_fx_tie (fx : fixes) (cs : list case) :=
+  judge_all (fun c => {| v_model := model_agrees_fx fx c; v_class := 0%N; v_spec := true |}) cs.
